@@ -26,7 +26,7 @@ func runSchedJob(c *Ctl, job *Job, idx int, res *RunResult) {
 		WRelease: 10, WAdvance: 8, WBarrier: 2, WMidpass: 3,
 		CancelAt: -1,
 	}
-	gen := SchedGenParams{MaxStages: 5, NestProb: 25, SharedNestProb: 35, FailProb: 30, AllowProb: 35, CondProb: 30, MaxDepth: 1}
+	gen := SchedGenParams{MaxStages: 5, NestProb: 25, SharedNestProb: 35, FailProb: 30, AllowProb: 35, CondProb: 30, MaxDepth: 1, InteractivePct: 12}
 	if thorough {
 		gen.MaxStages = 8
 		gen.MaxDepth = 2
